@@ -252,6 +252,137 @@ func runC10(c *Ctx) {
 		c.Check(nPrev >= 1 && nPrev == good, "C10-R2", "parseComments:line excluded by an earlier comment is blanked completely", pc.Decl.Pos(), "emptyCurrentLine(nil)",
 			"a line excluded by ignore/next-line keeps its trailing comment text: a `# pint disable …` there is attached to a neighbouring rule by the YAML parser")
 		c.Check(len(calls) >= 3, "C10-R2", "parseComments:blanking sites", pc.Decl.Pos(), itoa(len(calls)), "fewer than three blanking calls")
+		// ignore/line on a line consumes a pending one-line exclusion: outside a begin
+		// block the skipCurrentLine case clears skipNext, otherwise the line AFTER it is
+		// excluded too (ignore/next-line followed by an ignore/line line)
+		{
+			cleared := false
+			ast.Inspect(pc.Decl.Body, func(n ast.Node) bool {
+				cc, ok := n.(*ast.CaseClause)
+				if !ok || len(cc.List) != 1 {
+					return true
+				}
+				if k := constObj(info, cc.List[0]); k == nil || k.Name() != "skipCurrentLine" {
+					return true
+				}
+				for _, st := range cc.Body {
+					ast.Inspect(st, func(m ast.Node) bool {
+						as, ok := m.(*ast.AssignStmt)
+						if !ok || len(as.Lhs) != 1 || len(as.Rhs) != 1 || !fieldSel(info, as.Lhs[0], CR, "skipNext") || exprStr(as.Rhs[0]) != "false" {
+							return true
+						}
+						okGuards := true
+						for _, a := range lexicalGuards(pm, as, cc) {
+							if !(a.Tag == nil && !a.Truth && fieldSel(info, ast.Unparen(a.E), CR, "inBegin")) {
+								if _, isNot := ast.Unparen(a.E).(*ast.UnaryExpr); !isNot {
+									okGuards = false
+								}
+							}
+						}
+						if okGuards {
+							cleared = true
+						}
+						return true
+					})
+				}
+				return false
+			})
+			c.Check(cleared, "C10-R2", "parseComments:ignore/line ends a pending one-line exclusion", pc.Decl.Pos(), "skipNext cleared outside begin blocks",
+				"after `# pint ignore/next-line` a line carrying `# pint ignore/line` leaves the one-line skip armed: the first line of whatever follows is blanked as well, although no comment excludes it")
+		}
+		// a line that was already excluded when it was read is blanked on EVERY path,
+		// also when it carries an ignore comment of its own (ignore/next-line,
+		// ignore/begin): starting from the snapshot of the exclusion flag, no exit is
+		// reachable without passing emptyCurrentLine, once the edges that establish
+		// "not excluded" or "inside a begin block" are cut
+		if excluded != nil {
+			var snap *Site
+			for _, sm := range fl.Find(func(n ast.Node) bool {
+				as, ok := n.(*ast.AssignStmt)
+				return ok && as.Tok == token.DEFINE && len(as.Lhs) == 1 && objOf(info, as.Lhs[0]) == excluded
+			}) {
+				s := sm.Site
+				snap = &s
+			}
+			if snap != nil {
+				isBlank := func(n ast.Node) bool {
+					return fl.containsCall(n, "internal/parser.ContentReader.emptyCurrentLine")
+				}
+				reach, at := fl.Reach(snap.After(), func(Site) bool { return false }, true, PathQ{
+					Avoid: isBlank,
+					Cut: func(atoms []Atom) bool {
+						// value of a condition under the assumptions of this query
+						// (the line was excluded, we are not inside a begin block):
+						// 1 true, -1 false, 0 unknown
+						var val func(e ast.Expr) int
+						val = func(e ast.Expr) int {
+							e = ast.Unparen(e)
+							switch x := e.(type) {
+							case *ast.Ident:
+								if info.Uses[x] == excluded {
+									return 1
+								}
+							case *ast.SelectorExpr:
+								if fieldSel(info, x, CR, "inBegin") {
+									return -1
+								}
+							case *ast.UnaryExpr:
+								if x.Op == token.NOT {
+									return -val(x.X)
+								}
+							case *ast.BinaryExpr:
+								l, r := val(x.X), val(x.Y)
+								switch x.Op {
+								case token.LAND:
+									if l == -1 || r == -1 {
+										return -1
+									}
+									if l == 1 && r == 1 {
+										return 1
+									}
+								case token.LOR:
+									if l == 1 || r == 1 {
+										return 1
+									}
+									if l == -1 && r == -1 {
+										return -1
+									}
+								}
+							}
+							return 0
+						}
+						for _, a := range atoms {
+							if a.Tag != nil {
+								continue
+							}
+							// an edge that contradicts the assumptions is infeasible
+							if v := val(a.E); (v == 1 && !a.Truth) || (v == -1 && a.Truth) {
+								return true
+							}
+							e := ast.Unparen(a.E)
+							// not excluded
+							if id, ok := e.(*ast.Ident); ok && info.Uses[id] == excluded && !a.Truth {
+								return true
+							}
+							if fieldSel(info, e, CR, "skipNext") && !a.Truth {
+								return true
+							}
+							// inside an ignore/begin block the whole block is handled by R4
+							if fieldSel(info, e, CR, "inBegin") && a.Truth {
+								return true
+							}
+						}
+						return false
+					},
+				})
+				where := ""
+				if reach {
+					where = p.Pos(at.Node().Pos())
+				}
+				c.Check(!reach, "C10-R2", "parseComments:an already excluded line is blanked whatever comment it carries", pc.Decl.Pos(), "every exit passes emptyCurrentLine",
+					"parseComments can return (via "+where+") for a line that an earlier ignore/next-line excluded without blanking it: when that line carries its own `# pint ignore/next-line` or `ignore/begin`, the text in front of the comment reaches the YAML parser")
+			}
+		}
 	}
 
 	// ---- R4: inside an ignore/begin block only ignore/end may end the exclusion ----
